@@ -210,6 +210,9 @@ func genClusterOptions(t *rapid.T, c *simkit.ClusterSpec) (colliding bool, lagSt
 			}, keep...)
 		}
 		c.LocationLabels = simkit.Pick(t, [][]string{{"zone", "rack"}, {"zone", "rack", "host"}, {"zone", "host"}}, "locLabelsUnequal")
+		// the level drawn by simkit.GenCluster belongs to the location labels that were just
+		// replaced: ReplicationConfig.Validate refuses a level that is not one of the location labels
+		c.IsolationLevel = ""
 		if pct(t, 80, "isolationBelowFirst") {
 			c.IsolationLevel = simkit.Pick(t, c.LocationLabels[1:], "isolationLevelUnequal")
 		}
@@ -1020,8 +1023,33 @@ func checkRaw(ctx context.Context, mc *mockcluster.Cluster, c *Case, region *cor
 	return []*operator.Operator{op}
 }
 
+// validLevel: "isolation-level must be one of location-labels or empty"
+// (config.ReplicationConfig.Validate; assumed for a rule's level as well).
+func validLevel(labels []string, level string) bool {
+	if level == "" {
+		return true
+	}
+	for _, l := range labels {
+		if l == level {
+			return true
+		}
+	}
+	return false
+}
+
 func runOnce(c *Case, info *vkit.Info, rep int, tol *tolerance) (built bool, err error) {
 	first := rep == 0
+	// outside the input domain (pd refuses such a configuration): nothing is claimed
+	ok := validLevel(c.Cluster.LocationLabels, c.Cluster.IsolationLevel)
+	for _, r := range c.Rules {
+		ok = ok && validLevel(r.LocationLabels, r.IsolationLevel)
+	}
+	if !ok {
+		if first {
+			info.Class("out-of-domain:isolation-level-not-a-location-label")
+		}
+		return false, nil
+	}
 	ctx, stop := context.WithCancel(context.Background())
 	defer stop()
 	// what pd sees: the spec, except that lagging stores show zero counters
